@@ -317,47 +317,61 @@ TStep(o) ==
 \* ---- a whole call without interleaving (serial executions)
 CallRec(o, op, K, ttl, ok, other) == [o |-> o, op |-> op, ks |-> K, ttl |-> ttl, ok |-> ok, other |-> other]
 
-ACall(o, op, K, ttl, ok, other) ==
-  /\ \A p \in Owners : call[p].ph = "idle"
-  /\ \E s \in RunSet({Local(o, NewCall(variant, op, K, ttl))}, o) :
-        /\ s.c.ok = ok /\ s.c.other = other
-        /\ tab' = s.tab /\ flag' = [flag EXCEPT ![o] = s.fl] /\ tainted' = s.taint
-        /\ grant' = GrantAfter(GrantBegin(grant, o, op, K, ttl), o, s.c)
+\* the outcomes of a whole call: final local states of running its steps to completion
+Outcomes(o, op, K, ttl) == RunSet({Local(o, NewCall(variant, op, K, ttl))}, o)
+
+Effect(o, op, K, ttl, s) ==
+  /\ tab' = s.tab /\ flag' = [flag EXCEPT ![o] = s.fl] /\ tainted' = s.taint
+  /\ grant' = GrantAfter(GrantBegin(grant, o, op, K, ttl), o, s.c)
   /\ UNCHANGED <<variant, cap, call>>
 
-AStep(o, op, K, ttl, ok, other) ==
+ACall(o, op, K, ttl, ok, other) ==
+  /\ \A p \in Owners : call[p].ph = "idle"
+  /\ \E s \in Outcomes(o, op, K, ttl) : s.c.ok = ok /\ s.c.other = other /\ Effect(o, op, K, ttl, s)
+
+\* the same, recording the history (behaviour generation), result not given but computed
+AStep(o, op, K, ttl) ==
   /\ Len(hist) < MaxHist
-  /\ ACall(o, op, K, ttl, ok, other)
-  /\ hist' = Append(hist, CallRec(o, op, K, ttl, ok, other))
+  /\ \A p \in Owners : call[p].ph = "idle"
+  /\ \E s \in Outcomes(o, op, K, ttl) :
+        /\ Effect(o, op, K, ttl, s)
+        /\ hist' = Append(hist, CallRec(o, op, K, ttl, s.c.ok, s.c.other))
 
 ATick == /\ Len(hist) < MaxHist /\ Tick
          /\ hist' = Append(hist, CallRec(None, "Tick", <<>>, 0, TRUE, None))
+
+\* ... and without recording it (exhaustive atomic model)
+AStepNoHist(o, op, K, ttl) ==
+  /\ \A p \in Owners : call[p].ph = "idle"
+  /\ \E s \in Outcomes(o, op, K, ttl) : Effect(o, op, K, ttl, s)
+  /\ UNCHANGED hist
 
 \* key sequences tried by the exhaustive models: every non-empty subset, ascending
 SeqOf(S) == SortSeq(CHOOSE s \in [1..Cardinality(S) -> S] : \A i, j \in 1..Cardinality(S) : i # j => s[i] # s[j],
                     LAMBDA a, b : a < b)
 KeySeqs == {SeqOf(S) : S \in SUBSET Keys \ {{}}}
-Results == BOOLEAN \X (Owners \cup {None})
 
 \* IsLocked and Unlock take no duration
 TTLsOf(op) == IF op \in {"IsLocked", "Unlock"} THEN {0} ELSE TTLs
 
-FNext == \/ \E o \in Owners, op \in Ops, K \in KeySeqs : \E ttl \in TTLsOf(op) : MBegin(o, op, K, ttl)
-         \/ \E o \in Owners : MStep(o)
-         \/ FTick
+\* Behaviours are followed up to the first finding step (tainted): what the code does after one is judged per trace
+\* by the trace specification, not explored here (the ghost `grant` is meaningless once a lock has been lost).
+FNext == /\ ~tainted
+         /\ \/ \E o \in Owners, op \in Ops, K \in KeySeqs : \E ttl \in TTLsOf(op) : MBegin(o, op, K, ttl)
+            \/ \E o \in Owners : MStep(o)
+            \/ FTick
 
-ANext == \/ \E o \in Owners, op \in Ops, K \in KeySeqs, r \in Results : \E ttl \in TTLsOf(op) : AStep(o, op, K, ttl, r[1], r[2])
-         \/ ATick
+ANext == /\ ~tainted
+         /\ \/ \E o \in Owners, op \in Ops, K \in KeySeqs : \E ttl \in TTLsOf(op) : AStep(o, op, K, ttl)
+            \/ ATick
 
-\* whole calls without recording the history (exhaustive atomic model)
-AStepNoHist(o, op, K, ttl, ok, other) == ACall(o, op, K, ttl, ok, other) /\ UNCHANGED hist
-ANoHistNext == \/ \E o \in Owners, op \in Ops, K \in KeySeqs, r \in Results : \E ttl \in TTLsOf(op) :
-                     AStepNoHist(o, op, K, ttl, r[1], r[2])
-               \/ FTick
+ANoHistNext == /\ ~tainted
+               /\ \/ \E o \in Owners, op \in Ops, K \in KeySeqs : \E ttl \in TTLsOf(op) : AStepNoHist(o, op, K, ttl)
+                  \/ FTick
 
 FSpec == Init /\ [][FNext]_vars
-ASpecNoHist == Init /\ [][ANoHistNext]_vars
 ASpec == Init /\ [][ANext]_vars
+ASpecNoHist == Init /\ [][ANoHistNext]_vars
 
 -----------------------------------------------------------------------------
 (* C28 *)
@@ -379,10 +393,10 @@ TypeOK == /\ variant \in {"mem", "redis"} /\ cap \in Nat \ {0}
                                                 "setnx", "get", "getex", "del"}
           /\ (variant = "mem" => \A o \in Owners, k \in Keys : ~flag[o][k])
 
-\* behaviour emission (atomic model): one shortest history per distinct state whose history has the given length
-EmitAt(n) == (Len(hist) = n) => PrintT(<<"BEH", ToJson([variant |-> variant, cap |-> cap, tainted |-> tainted, hist |-> hist])>>)
-EmitFull == EmitAt(MaxHist)
-\* witnesses of the findings: a tainted state in which the raw invariants are broken
-EmitBroken == (tainted /\ ~(MutualExclusionRaw /\ OnlyOwnerReleasesRaw) /\ Len(hist) <= MaxHist) =>
-                 PrintT(<<"BROKEN", ToJson([variant |-> variant, cap |-> cap, tainted |-> tainted, hist |-> hist])>>)
+\* owners are interchangeable
+Sym == Permutations(Owners)
+\* behaviour emission (atomic model with history, hist hidden by VIEW): TLC evaluates an invariant once per distinct
+\* state, so this prints one shortest call sequence for every distinct reachable state
+EmitAll == PrintT(<<"BEH", ToJson([variant |-> variant, cap |-> cap, tainted |-> tainted,
+                                   broken |-> ~(MutualExclusionRaw /\ OnlyOwnerReleasesRaw), hist |-> hist])>>)
 =============================================================================
